@@ -176,6 +176,14 @@ def pathOf (top : Node) (r : Ref) : Option (List Step) := pathOfWith sameKind to
 /-- the pinned tree's `node.path` -/
 def pathOfPinned (top : Node) (r : Ref) : Option (List Step) := pathOfWith pinnedKind top r
 
+/-! ### `EtreeElementNode.get_document_node(replace=True)` (xpath_nodes.py 1327-1385)
+
+`fn:parse-xml-fragment` parses a string that is not a well-formed document inside a dummy
+`<document>` element and then *replaces* that element by a document node: the new node takes
+over the `children` list (`document_node.children = root_node.children`), every child's `parent`
+and the tree's `root_node` are switched to it, the dummy element is dropped. -/
+def replaceDummy (w : Node) : Node := docNode w.kids
+
 /-! ### `etree_iter_paths` -/
 
 /-- the three counters of `etree_iter_paths` (`Counter` = function with default 0) -/
